@@ -4,25 +4,25 @@
 # demo fails with the change and passes without; then archives to /verif/seeded/<seedname>/.
 set -u
 id="$1"; name="$2"; kind="$3"; demo="$4"
-wt=/tmp/seed/$id; out=/tmp/seed/$id.out
+base=${SEEDROOT:-/tmp/seed}; wt=$base/$id; out=$base/$id.out
 cd "$wt" || exit 2
-git diff > /tmp/seed/$id.confirm.diff
-if ! diff -q /tmp/seed/$id.confirm.diff "$out/patch.diff" >/dev/null; then echo "NOTE: worktree diff differs from patch.diff (using worktree diff)"; cp /tmp/seed/$id.confirm.diff "$out/patch.diff"; fi
+git diff > $base/$id.confirm.diff
+if ! diff -q $base/$id.confirm.diff "$out/patch.diff" >/dev/null; then echo "NOTE: worktree diff differs from patch.diff (using worktree diff)"; cp $base/$id.confirm.diff "$out/patch.diff"; fi
 tests=$(cargo test --workspace --no-fail-fast --offline 2>&1 | grep -E "^test result" | tr '\n' ';')
 echo "tests with change: $tests"
 run_demo() {
   case "$kind" in
-    example) mkdir -p examples && cp "$demo" examples/seed_demo.rs && cargo run -q --offline --example seed_demo >/tmp/seed/$id.demo.log 2>&1; rc=$?; rm -rf examples;;
-    example-features) mkdir -p examples && cp "$demo" examples/seed_demo.rs && cargo run -q --offline --features "$FEATURES" --example seed_demo >/tmp/seed/$id.demo.log 2>&1; rc=$?; rm -rf examples;;
-    test) cp "$demo" tests/seed_demo.rs 2>/dev/null || { mkdir -p tests; cp "$demo" tests/seed_demo.rs; }; cargo test -q --offline ${FEATURES:+--features $FEATURES} --test seed_demo >/tmp/seed/$id.demo.log 2>&1; rc=$?; rm -f tests/seed_demo.rs; rmdir tests 2>/dev/null;;
-    sh) sh "$demo" >/tmp/seed/$id.demo.log 2>&1; rc=$?;;
+    example) mkdir -p examples && cp "$demo" examples/seed_demo.rs && cargo run -q --offline --example seed_demo >$base/$id.demo.log 2>&1; rc=$?; rm -rf examples;;
+    example-features) mkdir -p examples && cp "$demo" examples/seed_demo.rs && cargo run -q --offline --features "$FEATURES" --example seed_demo >$base/$id.demo.log 2>&1; rc=$?; rm -rf examples;;
+    test) cp "$demo" tests/seed_demo.rs 2>/dev/null || { mkdir -p tests; cp "$demo" tests/seed_demo.rs; }; cargo test -q --offline ${FEATURES:+--features $FEATURES} --test seed_demo >$base/$id.demo.log 2>&1; rc=$?; rm -f tests/seed_demo.rs; rmdir tests 2>/dev/null;;
+    sh) sh "$demo" >$base/$id.demo.log 2>&1; rc=$?;;
   esac
   return $rc
 }
 run_demo; with=$?
-git diff > /tmp/seed/$id.undo.diff; git apply -R /tmp/seed/$id.undo.diff; run_demo; without=$?; git apply /tmp/seed/$id.undo.diff   # (git stash is shared between worktrees: never use it here)
+git diff > $base/$id.undo.diff; git apply -R $base/$id.undo.diff; run_demo; without=$?; git apply $base/$id.undo.diff   # (git stash is shared between worktrees: never use it here)
 echo "demo exit with change: $with ; without change: $without"
-tail -3 /tmp/seed/$id.demo.log
+tail -3 $base/$id.demo.log
 if [ "$with" -ne 0 ] && [ "$without" -eq 0 ] && echo "$tests" | grep -q "44 passed; 0 failed"; then
   mkdir -p /verif/seeded/$name && cp "$out"/patch.diff /verif/seeded/$name/ && cp "$out"/demo* /verif/seeded/$name/ 2>/dev/null
   rm -f /verif/seeded/$name/demo.bin
